@@ -104,10 +104,55 @@ func loadProgram(overlay map[string]string) (*loaded, error) {
 	l.P.RepoPrefix = repoMod
 	l.P.InitAllow = initAllow
 	l.P.ZeroOK = zeroOK
+	if err := l.redirectBbolt(); err != nil {
+		return nil, err
+	}
 	return l, nil
 }
 
+// redirectBbolt maps every method of bbolt's DB/Tx/Bucket/Cursor to the method
+// of the same name of the mbolt model; a bbolt method without a model twin is
+// left alone (calling it aborts the path as unsupported: no code / unsafe).
+func (l *loaded) redirectBbolt() error {
+	bp, mp := l.pkgs["go.etcd.io/bbolt"], l.pkgs[repoMod+"/verifrt/mbolt"]
+	if bp == nil || mp == nil {
+		return fmt.Errorf("bbolt or mbolt package not loaded")
+	}
+	n := 0
+	for _, tn := range []string{"DB", "Tx", "Bucket", "Cursor"} {
+		bt, mt := bp.Type(tn), mp.Type(tn)
+		if bt == nil || mt == nil {
+			return fmt.Errorf("type %s missing", tn)
+		}
+		bptr := types.NewPointer(bt.Type())
+		mptr := types.NewPointer(mt.Type())
+		bms := l.prog.MethodSets.MethodSet(bptr)
+		for i := 0; i < bms.Len(); i++ {
+			sel := bms.At(i)
+			name := sel.Obj().Name()
+			msel := l.prog.MethodSets.MethodSet(mptr).Lookup(mp.Pkg, name)
+			if msel == nil {
+				msel = l.prog.MethodSets.MethodSet(mptr).Lookup(nil, name)
+			}
+			from := l.prog.MethodValue(sel)
+			if msel == nil {
+				continue
+			}
+			to := l.prog.MethodValue(msel)
+			if from != nil && to != nil {
+				l.P.Redirect(from, to)
+				n++
+			}
+		}
+	}
+	if n < 30 {
+		return fmt.Errorf("only %d bbolt methods redirected", n)
+	}
+	return nil
+}
+
 var initAllowPrefixes = []string{
+	"go.etcd.io/bbolt/errors",
 	repoMod + "/ast", repoMod + "/boltz", repoMod + "/objectz", repoMod + "/verifrt", repoMod + "/boltztest",
 	"github.com/biogo/store/llrb",
 	"github.com/openziti/foundation/v2/errorz", "github.com/openziti/foundation/v2/stringz",
